@@ -414,6 +414,24 @@ pub fn oneshot(cx: &mut Ctx) {
                 }
             }
         }
+        // error-dense head followed by a clean ASCII tail: the first output allocation of the one-shot API is outgrown by the
+        // replacement characters, the rest is decoded after the reallocation
+        if ascii_like {
+            let mut kk = 0usize;
+            for nerr in 1..=6usize {
+                for ntail in 0..=40usize {
+                    kk += 1;
+                    if !cx.thorough && (kk + ei + cx.seed as usize) % 2 != 0 && ntail > 12 {
+                        continue;
+                    }
+                    let mut t: Vec<u8> = (0..nerr).map(|i| if i % 2 == 0 { 0xFFu8 } else { 0x80 }).collect();
+                    t.extend(std::iter::repeat(b'b').take(ntail));
+                    for api in APIS.iter() {
+                        one_decode(cx, e, api, 0, &t);
+                    }
+                }
+            }
+        }
         // UTF-16 and replacement: longer direct inputs
         if !ascii_like {
             for _ in 0..if cx.thorough { 2000 } else { 300 } {
